@@ -51,6 +51,27 @@ def fact(n):
     return r
 
 
+def rat_sqrt(v):
+    """exact square root of a Fraction as a Gaussian rational (re, im), or None"""
+    import math
+    neg = v < 0
+    v = -v if neg else v
+    n, d = math.isqrt(v.numerator), math.isqrt(v.denominator)
+    if n * n != v.numerator or d * d != v.denominator:
+        return None
+    r = Fraction(n, d)
+    return (Fraction(0), r) if neg else (r, Fraction(0))
+
+
+def omega1_of(A):
+    """the damped frequency of a second-order denominator a0 + a1 s + a2 s^2 (input data, constant first):
+    a square root of a0/a2 - (a1/(2 a2))^2 when it is a Gaussian rational"""
+    if len(A) != 3 or any(a[1] != 0 for a in A) or A[2][0] == 0:
+        return None
+    a0, a1, a2 = A[0][0], A[1][0], A[2][0]
+    return rat_sqrt(a0 / a2 - (a1 / (2 * a2)) ** 2)
+
+
 class Canon:
     """SymPy time-domain expression (as returned by Lcapy) -> items of the formal signal type.
     Every number is a pair of Fractions (re, im)."""
@@ -239,22 +260,45 @@ class Gen:
 
     def ratfun(self):
         """-> dict with A, B coefficient lists (constant first, (re,im) pairs), text, tags"""
-        rng = self.rng
         kind, poles = self.pole_set()
+        return self.build(kind, poles)
+
+    def rcoef(self, nonzero=False):
+        while True:
+            c = Fraction(self.rng.randint(-5, 5), self.rng.choice([1, 1, 2]))
+            if c != 0 or not nonzero:
+                return c
+
+    def build(self, kind, poles, B=None, lc=None, T=None, quotient=None):
+        """rational function from a pole list [(pole (re, im), multiplicity)]; numerator `B` (real coefficient list,
+        constant first) random unless given; with `quotient` (list, constant first) B = quotient*A + random remainder"""
+        rng = self.rng
         A = [(Fraction(1), Fraction(0))]
         for (p, m) in poles:
             for _ in range(m):
                 A = poly_mul(A, [(-p[0], -p[1]), (Fraction(1), Fraction(0))])
-        lc = Fraction(rng.choice([1, 1, 2, 3]), rng.choice([1, 1, 2]))
+        if lc is None:
+            lc = Fraction(rng.choice([1, 1, 2, 3]), rng.choice([1, 1, 2]))
         A = [(a[0] * lc, a[1] * lc) for a in A]
         assert all(a[1] == 0 for a in A)
         degA = len(A) - 1
-        proper = rng.random() < 0.7
-        degB = rng.randint(0, degA - 1) if proper else rng.randint(degA, degA + 2)
-        B = [(Fraction(rng.randint(-5, 5), rng.choice([1, 1, 2])), Fraction(0)) for _ in range(degB + 1)]
-        if B[-1][0] == 0:
-            B[-1] = (Fraction(1), Fraction(0))
-        T = rng.choice([Fraction(0)] * 5 + [Fraction(1, 2), Fraction(1), Fraction(2)])
+        if quotient is not None:
+            M = [(self.rcoef(), Fraction(0)) for _ in range(degA)]
+            QA = poly_mul([(q, Fraction(0)) for q in quotient], A)
+            B = [(QA[i][0] + (M[i][0] if i < len(M) else 0), Fraction(0)) for i in range(len(QA))]
+            proper = False
+        elif B is not None:
+            B = [(Fraction(b), Fraction(0)) for b in B]
+            proper = len(B) - 1 < degA
+        else:
+            proper = rng.random() < 0.7
+            degB = rng.randint(0, degA - 1) if proper else rng.randint(degA, degA + 2)
+            B = [(Fraction(rng.randint(-5, 5), rng.choice([1, 1, 2])), Fraction(0)) for _ in range(degB + 1)]
+            if B[-1][0] == 0:
+                B[-1] = (Fraction(1), Fraction(0))
+        degB = len(B) - 1
+        if T is None:
+            T = rng.choice([Fraction(0)] * 5 + [Fraction(1, 2), Fraction(1), Fraction(2)])
 
         def ptxt(c):
             return ' + '.join('(%s)*s**%d' % (a[0], i) for i, a in enumerate(c))
@@ -268,6 +312,67 @@ class Gen:
         return {'A': A, 'B': B, 'T': T, 'txt': txt, 'kind': kind, 'proper': proper, 'degA': degA, 'degB': degB,
                 'repeated_complex': rep_complex, 'degree2_not_underdamped': deg2_not_under, 'degree2_via_numerator': deg2_via_num,
                 'delayed': T != 0, 'stable_or_step': stable, 'maxmult': max(m for _, m in poles)}
+
+    # ---- directed stream 1: second-order sections (every branch of `do_damped_sin` and its fall-backs)
+    SECOND_ORDER_DEN = ['underdamped', 'underdamped', 'undamped', 'overdamped', 'critical', 'origin', 'unstable-complex']
+    SECOND_ORDER_NUM = ['const', 'lin', 'lin-nodc', 'quad-full', 'quad-full', 'quad-nolin', 'quad-nodc', 'quad-pure']
+
+    def second_order(self, den=None, num=None, T=None):
+        """B/A with deg A = 2 and deg B <= 2: denominators underdamped (-a +- jb), undamped, overdamped (two real poles),
+        critically damped, with a pole at the origin; numerators with every zero / non-zero pattern of (b0, b1, b2)"""
+        rng = self.rng
+        den = den or rng.choice(self.SECOND_ORDER_DEN)
+        num = num or rng.choice(self.SECOND_ORDER_NUM)
+        a = Fraction(rng.randint(1, 5), rng.choice([1, 2]))
+        b = Fraction(rng.randint(1, 5), rng.choice([1, 2]))
+        if den == 'underdamped':
+            poles = [((-a, b), 1), ((-a, -b), 1)]
+        elif den == 'unstable-complex':
+            poles = [((a, b), 1), ((a, -b), 1)]
+        elif den == 'undamped':
+            poles = [((Fraction(0), b), 1), ((Fraction(0), -b), 1)]
+        elif den == 'overdamped':
+            poles = [((-a, Fraction(0)), 1), ((-a - b, Fraction(0)), 1)]
+        elif den == 'critical':
+            poles = [((-a, Fraction(0)), 2)]
+        else:
+            poles = [((Fraction(0), Fraction(0)), 1), ((-a, Fraction(0)), 1)]
+        nz = lambda: self.rcoef(nonzero=True)
+        B = {'const': [nz()], 'lin': [nz(), nz()], 'lin-nodc': [0, nz()], 'quad-full': [nz(), nz(), nz()],
+             'quad-nolin': [nz(), 0, nz()], 'quad-nodc': [0, nz(), nz()], 'quad-pure': [0, 0, nz()]}[num]
+        tm = self.build('second-order:%s:%s' % (den, num), poles, B=B, T=T)
+        return tm
+
+    # ---- directed stream 2: improper rational functions with a chosen quotient
+    QUOTIENT_SHAPES = ['dense', 'gap', 'gap', 'gaps', 'trailing-zero', 'gap-then-trailing', 'constant', 'linear']
+
+    def improper(self, shape=None, T=None):
+        """B = Q*A + M with Q of degree <= 4 chosen with zero coefficients in every position pattern"""
+        rng = self.rng
+        shape = shape or rng.choice(self.QUOTIENT_SHAPES)
+        nz = lambda: self.rcoef(nonzero=True)
+        if shape == 'dense':
+            Q = [nz() for _ in range(rng.randint(3, 5))]
+        elif shape == 'gap':                     # one interior zero followed by non-zero lower coefficients
+            n = rng.randint(3, 5)
+            Q = [nz() for _ in range(n)]
+            Q[rng.randint(1, n - 2)] = Fraction(0)
+        elif shape == 'gaps':
+            Q = [nz(), Fraction(0), nz(), Fraction(0), nz()][:rng.choice([3, 5])]
+            if len(Q) == 3:
+                Q = [nz(), Fraction(0), nz()]
+        elif shape == 'trailing-zero':
+            Q = [Fraction(0)] * rng.randint(1, 2) + [nz() for _ in range(rng.randint(1, 2))]
+        elif shape == 'gap-then-trailing':
+            Q = [Fraction(0), nz(), Fraction(0), nz()]
+        elif shape == 'constant':
+            Q = [nz()]
+        else:
+            Q = [rng.choice([Fraction(0), nz()]), nz()]
+        kind, poles = self.pole_set()
+        while kind in ('high', 'repeated-complex', 'mixed'):
+            kind, poles = self.pole_set()
+        return self.build('improper:%s:%s' % (shape, kind), poles, quotient=Q, T=T)
 
 
 OPTION_AXES = [('causal', [False, True]), ('ac', [False, True]), ('dc', [False, True]),
@@ -304,9 +409,10 @@ def run(chk, replay=None):
                 f.write(text)
     chk.coverage['translator'] = {'status': 'ok' if not info['unparsed'] else 'partial', 'definitions': len(info['defs']),
                                   'unparsed': info['unparsed'], 'conjPartnerMustBeSimple': info['flag'],
-                                  'keyOptions': info['keyOptions'], 'readOptions': info['readOptions']}
-    broken = chk.lean(['Lcapy/Props/C10.lean'],
-                      helper_files=['Lcapy/Proofs/Laplace.lean', 'Lcapy/Proofs/LaplaceILT.lean', 'Lcapy/Spec/Signal.lean',
+                                  'keyOptions': info['keyOptions'], 'readOptions': info['readOptions'],
+                                  'dampedSin': info['dampedSin'], 'qLoop': info['qLoop'], 'residueDivisor': info['residueDivisor']}
+    broken = chk.lean(['Lcapy/Props/C10.lean', 'Lcapy/Props/C10b.lean', 'Lcapy/Props/C10c.lean'],
+                      helper_files=['Lcapy/Proofs/ResidueSub.lean', 'Lcapy/Model/ResidueSub.lean', 'Lcapy/Proofs/Laplace.lean', 'Lcapy/Proofs/LaplaceILT.lean', 'Lcapy/Proofs/LaplaceDS.lean', 'Lcapy/Spec/Signal.lean',
                                     'Lcapy/Model/ExpPoly.lean', 'Lcapy/Model/ILT.lean', 'Lcapy/Generated/ILTFlags.lean', 'Lcapy/Driver/C10.lean',
                                     'Lcapy/Driver/C09.lean'],
                       leanchecker=(chk.tier == 'thorough'))
@@ -338,7 +444,10 @@ def run(chk, replay=None):
                             'Gaussian rationals, repeated up to multiplicity 4; proper in 70% of draws, else improper by up to 2 degrees) times '
                             'exp(-sT), T in {0, 1/2, 1, 2}; one sum of two such terms in every fourth input; option sets drawn from all 128 '
                             'combinations of causal/ac/dc/damped_sin/damping/zero_initial_conditions (the default set and causal=True always '
-                            'included); non-trivial = Lcapy returned a closed form that the canonicaliser understood; distinct by (F, options)')
+                            'included); directed stream 1: second-order sections (under/over/critically damped, undamped, origin pole) with '
+                            'numerators of degree 0..2 in every zero pattern, inverted with damped_sin=True x causal x damping; directed '
+                            'stream 2: improper B = Q*A + M with a chosen quotient Q of degree <= 4 (dense / interior zero coefficients / '
+                            'trailing zeros); non-trivial = Lcapy returned a closed form that the canonicaliser understood; distinct by (F, options)')
     disagreements = []
     counterexamples = [0]
 
@@ -385,7 +494,62 @@ def run(chk, replay=None):
         return {'B': ' '.join(gq(c) for c in Bc), 'A': ' '.join(gq(c) for c in Ac), 'Q': ' '.join(gq(c) for c in Qc),
                 'RPO': ' '.join(rpo), 'poles': ' '.join(poles), 'T': d}
 
-    def one_input(terms, idx, forced_opts=None):
+    def residue_methods(Fs, tmtxt, keybase):
+        """correspondence of the MODEL of `_find_residues_sub` (Model/ResidueSub.lean, theorem find_residues_sub_sound)
+        with the real function on the arguments `as_QRPO` hands to it, entry by entry in the code's order; the solution of
+        `_find_residues_ec` through the checker with the cofactors built by the source's rule (model `ecCofactors`)"""
+        try:
+            rf = Ratfun(Fs, ssym)
+            Q, M, A, delay, undef = rf.as_QMA()
+            sexpr = Ratfun(M / A, ssym)
+            poles = sexpr.poles()
+            if len(poles) == 0 or (len(poles) == 1 and poles[0].n == 1):
+                chk.count('residue-model', 'not-reached(single simple pole / polynomial)')
+                return
+            B = sexpr.B
+            B /= sexpr.Apoly().LC()
+            Bc = coeffs(B)
+            ptoks = []
+            for pl in poles:
+                pt = numtok(pl.expr)
+                if pt is None:
+                    Bc = None
+                    break
+                ptoks += [pt, str(int(pl.n))]
+            if Bc is None:
+                chk.count('residue-model', 'not-gaussian-rational')
+                return
+            Rs, Ps, Os = rf._find_residues_sub(poles, B)
+            Re, Pe, Oe = rf._find_residues_ec(poles, B)
+        except Exception as ex:   # noqa
+            chk.count('degenerate', 'residue-method-error:' + type(ex).__name__)
+            return
+        btxt, ptxt = ' '.join(gq(c) for c in Bc), ' '.join(ptoks)
+        rep = drv.ask1('res.sub ; %s ; %s' % (btxt, ptxt))
+        hyp, _, mtoks = rep.partition(' | ')
+        real = []
+        for r, p_, o in zip(Rs, Ps, Os):
+            real += [numtok(r), numtok(p_), str(int(o))]
+        chk.count('residue-model', 'sub:' + hyp)
+        chk.case(('residue-sub', tmtxt), True)
+        if None not in real:
+            chk.coverage['correspondence']['compared'] += 1
+            if mtoks.split(' ') != real and not (mtoks == '' and real == []):
+                chk.coverage['correspondence']['disagreements'] += 1
+                disagreements.append({'F': tmtxt, 'what': '_find_residues_sub', 'B': btxt, 'poles': ptxt, 'lcapy': ' '.join(real), 'model': mtoks})
+        rtoks = [numtok(r) for r in Re]
+        if None not in rtoks:
+            ok = drv.ask1('res.ec ; %s ; %s ; %s' % (btxt, ptxt, ' '.join(rtoks)))
+            chk.count('residue-model', 'ec:' + ok)
+            if ok != 'true':
+                counterexamples[0] += 1
+                chk.counterexample(dict(keybase, what='find_residues_ec'),
+                                   {'input': {'F': tmtxt, 'B': btxt, 'poles': ptxt}, 'lcapy': {'R': rtoks, 'P': [str(x) for x in Pe], 'O': [int(x) for x in Oe]},
+                                    'spec': 'B = sum r_i * cof_i with cof_i * (s - p_i)^o_i = prod (s - p)^n (pfCheck with the cofactors of the '
+                                            'source rule; theorem pf_check_sound)'},
+                                   'Ratfun._find_residues_ec returned residues that do not reconstruct the expression')
+
+    def one_input(terms, idx, forced_opts=None, option_sets=None):
         """terms: list of generated ratfun dicts (a sum)"""
         smp = Sampler(rng, S)
         txt = ' + '.join(tm['txt'] for tm in terms)
@@ -412,6 +576,7 @@ def run(chk, replay=None):
         term_exprs = [lexpr(tm['txt']).sympy for tm in terms]
         qr = []
         for tm, Fs in zip(terms, term_exprs):
+            residue_methods(Fs, tm['txt'], keybase)
             for method in ('sub', 'ec'):
                 try:
                     d = qrpo_tokens(Fs, None, method)
@@ -452,6 +617,8 @@ def run(chk, replay=None):
         want = tuple(want)
         # ---- (b) option sets
         chosen = [OPTS[0], dict(OPTS[0], causal=True)] + rng.sample(OPTS, n_opts)
+        if option_sets is not None:
+            chosen = [dict(OPTS[0], **o) for o in option_sets]
         if forced_opts is not None:
             chosen = [dict(OPTS[0], **forced_opts)] + chosen[:2]
         first = None
@@ -510,7 +677,9 @@ def run(chk, replay=None):
             # oracle 2: causality flags
             # 'dc', 'ac', 'causal' are mutually exclusive assumptions: "the last one overrides" (Assumptions.merge/set);
             # kwargs are passed in the order causal, ac, dc
-            causal = bool(kw.get('causal', False)) and not kw.get('ac', False) and not kw.get('dc', False)
+            # (model of Assumptions.set / merge, theorem assumption_last_overrides; the driver folds the keywords in order)
+            asm = [(k, kw[k]) for k in kw if k in ('causal', 'ac', 'dc')]
+            causal = drv.ask1('asm.causal ' + ' '.join('%s=%d' % (k, 1 if v else 0) for k, v in asm)) == 'true' if asm else False
             chk.count('effective-causal', str(causal))
             if causal:
                 isc = drv.ask1('sig.causal ; %s' % ' '.join(items))
@@ -536,8 +705,25 @@ def run(chk, replay=None):
                 mv = [Fraction(0), Fraction(0)]
                 mg = False
                 mok = True
-                for q in qr:
-                    r = drv.ask1('ilt.model %s %d %s ; %s ; %s' % (smp.env_tokens(), 1 if causal else 0, q['T'], q['Q'], q['RPO'])).split(' ')
+                for q, tm in zip(qr, terms):
+                    r = None
+                    if kw.get('damped_sin', False) and len(tm['A']) == 3 and len(tm['B']) <= 3:
+                        # `ratfun`: Ddegree == 2 and Ndegree <= 2 -> do_damped_sin (generated arithmetic); its error guards
+                        # (reply `fallback`) send the input to the partial-fraction route
+                        om = omega1_of(tm['A'])
+                        if om is None:
+                            chk.count('damped-sin-model', 'omega1-not-gaussian-rational')
+                        elif om == (0, 0):
+                            chk.count('damped-sin-model', 'fallback')
+                        else:
+                            rr = drv.ask1('ilt.ds %s %d %s ; %s ; %s ; %s' % (
+                                smp.env_tokens(), 1 if causal else 0, fstr(tm['T']), ' '.join(gq(c) for c in reversed(tm['B'])),
+                                ' '.join(gq(c) for c in reversed(tm['A'])), gq(om)))
+                            chk.count('damped-sin-model', 'fallback' if rr == 'fallback' else ('modelled' if len(rr.split(' ')) == 3 else rr))
+                            if rr != 'fallback':
+                                r = rr.split(' ')
+                    if r is None:
+                        r = drv.ask1('ilt.model %s %d %s ; %s ; %s' % (smp.env_tokens(), 1 if causal else 0, q['T'], q['Q'], q['RPO'])).split(' ')
                     v = c09.parse_val(r[0])
                     if v is None or len(r) != 3:
                         mok = False
@@ -672,6 +858,26 @@ def run(chk, replay=None):
             one_input(terms, 0, forced_opts=inp.get('options'))
     if not replay:
         cache_stage()
+    # ---- directed stream 1: second-order sections with damped_sin=True (do_damped_sin: strictly proper with constant /
+    # first-order numerator, biproper; every zero pattern of the numerator coefficients; under/over/critically damped,
+    # undamped, pole at the origin -> the fall-back to the partial-fraction route), crossed with causal / damping / delay
+    DS_OPTS = [{'damped_sin': True}, {'damped_sin': True, 'causal': True}]
+    DS_DEN = ['undamped', 'overdamped', 'critical', 'origin', 'unstable-complex', 'underdamped']
+    n_second = 0 if replay else (len(gen.SECOND_ORDER_NUM) + len(DS_DEN) if quick else 120)
+    for i in range(n_second):
+        num = gen.SECOND_ORDER_NUM[i % len(gen.SECOND_ORDER_NUM)]
+        den = 'underdamped' if i < len(gen.SECOND_ORDER_NUM) else DS_DEN[i % len(DS_DEN)]
+        tm = gen.second_order(den=den, num=num if i < len(gen.SECOND_ORDER_NUM) else None)
+        chk.count('second-order', tm['kind'])
+        extra = {'damped_sin': True, 'damping': rng.choice(['under', 'over', 'critical'])}
+        one_input([tm], 1000 + i, option_sets=DS_OPTS + [extra, {}])
+    # ---- directed stream 2: improper rational functions B = Q*A + M with a chosen quotient (dense, with interior zero
+    # coefficients, with trailing zeros), i.e. every pattern of Dirac-delta derivatives the polynomial part can produce
+    n_improper = 0 if replay else (len(gen.QUOTIENT_SHAPES) if quick else 80)
+    for i in range(n_improper):
+        tm = gen.improper(shape=gen.QUOTIENT_SHAPES[i % len(gen.QUOTIENT_SHAPES)])
+        chk.count('improper-quotient', tm['kind'].split(':')[1])
+        one_input([tm], 2000 + i, option_sets=[{}, {'causal': True}])
     for i in range(n_funcs):
         terms = [gen.ratfun()]
         if i % 4 == 3:
